@@ -1672,7 +1672,11 @@ nice_udp_turn_socket_parse_recv (NiceSocket *sock, NiceSocket **from_sock,
     ChannelBinding *b = l->data;
     if (priv->compatibility == NICE_TURN_SOCKET_COMPATIBILITY_DRAFT9 ||
         priv->compatibility == NICE_TURN_SOCKET_COMPATIBILITY_RFC5766) {
-      if (b->channel == ntohs(recv_buf.u16[0])) {
+      /* A ChannelData message has a 4-byte header and cannot carry more data
+       * than was received (RFC 5766 section 11.6) */
+      if (recv_len >= sizeof(uint32_t) &&
+          b->channel == ntohs(recv_buf.u16[0]) &&
+          ntohs (recv_buf.u16[1]) <= recv_len - sizeof(uint32_t)) {
         recv_len = ntohs (recv_buf.u16[1]);
         recv_buf.u8 += sizeof(uint32_t);
         binding = b;
